@@ -523,7 +523,7 @@ func TestC35(t *testing.T) {
 	run.Assume("the cluster client's poll back-off is the production one (1 s initial); 202 answers are limited to two per case to keep the run short")
 
 	r := run.Rand("cases")
-	n := run.N(400, 20000)
+	n := run.N(400, 12000)
 	cases := make([]caseSpec, n)
 	orders := make([][]int, n)
 	for i := range cases {
